@@ -98,7 +98,7 @@ func hyperbCmd(out *cq.Out, seed uint64, tier string) {
 	rng := cq.NewRng(seed)
 	sizes := []int{3, 10, 25}
 	if tier == "thorough" {
-		sizes = []int{1, 3, 10, 25, 60, 150}
+		sizes = []int{1, 3, 10, 25, 40, 60}
 	}
 	var cases []string
 	for ci, n := range sizes {
